@@ -166,12 +166,12 @@ CLAIMED.update({
         "note": _TB + "; same-type conversions, identity and selectors return their argument by design; streams are identity-only",
     },
     "C17": {
-        "technique": "runtime monitoring: reference calendar (datetime.date.toordinal) against to_oa_date/to_date on every calendar day 1900..9999 (thorough, exhaustive) and through interpreted date arithmetic; icontract postcondition on the real to_date active throughout",
-        "text": ("Every day 1900-01-01..9999-12-31 (thorough: all 2 958 101; quick: every 1 Jan, 31 Dec, 28/29 Feb, 1 Mar + stride): "
+        "technique": "runtime monitoring: reference calendar (datetime.date.toordinal) against to_oa_date/to_date on every calendar day 0001..9999 (thorough, exhaustive) and through interpreted date arithmetic; icontract postcondition on the real to_date active throughout",
+        "text": ("Every day 0001-01-01..9999-12-31 (thorough: all 3 652 059; quick: every 1 Jan, 31 Dec, 28/29 Feb, 1 Mar + stride): "
                  "day number == ordinal difference, to_date inverts it, consecutive days differ by 1; int/decimal/date "
                  "conversions inverse, (d+n)-n == d, (d+n)-d == n for boundary days x 26 offsets; 20k-200k random times of day "
                  "round-trip to the second."),
-        "note": _TB + "; results outside 1900..9999 are not representable and not asserted",
+        "note": _TB + "; results outside 0001-01-01..9999-12-31 are not representable and not asserted; dates before the year 1000 are compared with ==, not by their text",
     },
     "C18": {
         "technique": "runtime monitoring: host-string oracles and mutual-consistency laws over interpreted calls on adversarial strings; template model for s()/sprintf()",
